@@ -153,7 +153,7 @@ Reset == /\ Rec[l].e = "reset"
                     !.rt = [p \in SeqSet(r.rt0) |-> r.rt_seen0[p]],
                     !.cache = [t \in TTargets |-> IF r.cache0[t].on
                                                   THEN [on |-> TRUE, kind |-> r.cache0[t].kind, nodes |-> SeqSet(r.cache0[t].nodes),
-                                                        seen |-> [n \in SeqSet(r.cache0[t].nodes) |-> 0]]
+                                                        seen |-> IF r.cache0[t].kind = "get" THEN [n \in SeqSet(r.cache0[t].nodes) |-> 0] ELSE <<>>]
                                                   ELSE NoC],
                     !.lastRefresh = r.last_refresh, !.lastPing = r.last_ping, !.server = r.server, !.firewalled = r.firewalled,
                     !.ghost = IF r.ghost THEN {"g0"} ELSE {}]
